@@ -159,9 +159,65 @@ def _simple(e):
     return False
 
 
+def _single_exit(stmts, rname):
+    """Rewrite a block in which `return` occurs as last statement of the
+    block or of an if-arm at the top level (guard clauses) into a block
+    without returns that binds the result to `rname`; None if the block has
+    another shape."""
+    out = []
+    for i, st in enumerate(stmts):
+        rest = stmts[i + 1:]
+        if isinstance(st, ast.Return):
+            if rest:
+                return None
+            out.append(ast.copy_location(ast.Assign(
+                [ast.Name(rname, ast.Store())],
+                st.value or ast.Constant(None)), st))
+            return out
+        if isinstance(st, ast.If) and any(isinstance(x, ast.Return)
+                                          for x in ast.walk(st)):
+            body_ret = st.body and isinstance(st.body[-1], ast.Return)
+            else_ret = st.orelse and isinstance(st.orelse[-1], ast.Return)
+            if body_ret and not st.orelse:
+                b = _single_exit(st.body, rname)
+                e = _single_exit(rest, rname) if rest else [
+                    ast.copy_location(ast.Assign(
+                        [ast.Name(rname, ast.Store())], ast.Constant(None)),
+                        st)]
+                if b is None or e is None:
+                    return None
+                out.append(ast.copy_location(ast.If(st.test, b, e), st))
+                return out
+            if body_ret and else_ret and not rest:
+                b = _single_exit(st.body, rname)
+                e = _single_exit(st.orelse, rname)
+                if b is None or e is None:
+                    return None
+                out.append(ast.copy_location(ast.If(st.test, b, e), st))
+                return out
+            if else_ret and not body_ret:
+                e = _single_exit(st.orelse, rname)
+                b = _single_exit(list(st.body) + list(rest), rname) \
+                    if rest or st.body else None
+                if b is None or e is None:
+                    return None
+                out.append(ast.copy_location(ast.If(st.test, b, e), st))
+                return out
+            return None
+        if any(isinstance(x, ast.Return) for x in ast.walk(st)):
+            return None
+        out.append(st)
+    # fell off the end: returns None
+    out.append(ast.Assign([ast.Name(rname, ast.Store())],
+                          ast.Constant(None)))
+    return out
+
+
 def _inlinable(fn, is_method):
     a = fn.args
-    if fn.decorator_list or a.vararg or a.kwarg or a.posonlyargs:
+    decs = [ast.unparse(d) for d in fn.decorator_list]
+    if (decs and decs != ['staticmethod']) or a.vararg or a.kwarg or \
+            a.posonlyargs:
         return False
     body = fn.body[1:] if fn.body and isinstance(fn.body[0], ast.Expr) and \
         isinstance(getattr(fn.body[0], 'value', None), ast.Constant) and \
@@ -175,14 +231,16 @@ def _inlinable(fn, is_method):
         if isinstance(n, ast.FunctionDef) and n is not fn:
             return False
         if isinstance(n, ast.Return) and n is not body[-1]:
-            return False
+            if _single_exit(copy.deepcopy(body), '_r__') is None:
+                return False
         if isinstance(n, ast.Call):
             f = n.func
             if isinstance(f, ast.Name) and f.id == fn.name:
                 return False
             if isinstance(f, ast.Attribute) and f.attr == fn.name:
                 return False
-    if is_method and (not a.args or a.args[0].arg != 'self'):
+    if is_method and decs != ['staticmethod'] and (
+            not a.args or a.args[0].arg != 'self'):
         return False
     return True
 
@@ -216,7 +274,8 @@ class _Subst(ast.NodeTransformer):
 def _bind(fn, call, is_method):
     """param -> argument expression (None if the call does not fit)."""
     ps = [a.arg for a in fn.args.args]
-    if is_method:
+    if is_method and not any(ast.unparse(d) == 'staticmethod'
+                             for d in fn.decorator_list):
         ps = ps[1:]
     if len(call.args) > len(ps) or any(isinstance(a, ast.Starred)
                                        for a in call.args):
@@ -249,6 +308,15 @@ def _expand(fn, call, is_method, caller_locals, counter, site=None):
     if bind is None:
         return None
     body = copy.deepcopy(_body(fn))
+    if any(isinstance(x, ast.Return) and x is not body[-1]
+           for st0 in body for x in ast.walk(st0)):
+        rn = f'_r__{counter[0]}'
+        conv = _single_exit(body, rn)
+        if conv is None:
+            return None
+        body = conv + [ast.Return(ast.Name(rn, ast.Load()))]
+        for st0 in body:
+            ast.fix_missing_locations(st0)
     stored = {n.id for st in body for n in ast.walk(st)
               if isinstance(n, ast.Name) and isinstance(n.ctx, (ast.Store,
                                                                 ast.Del))}
@@ -871,7 +939,13 @@ def fold_new_module_constants(tree, ref):
                 isinstance(st.targets[0], ast.Name):
             nm = st.targets[0].id
             count[nm] = count.get(nm, 0) + 1
-            if isinstance(st.value, ast.Constant):
+            if isinstance(st.value, ast.Constant) or (
+                    isinstance(st.value, (ast.Tuple, ast.List, ast.Set,
+                                          ast.Dict)) and all(
+                        isinstance(x, (ast.Constant, ast.Tuple, ast.List,
+                                       ast.Set, ast.Dict, ast.Load,
+                                       ast.UnaryOp, ast.USub))
+                        for x in ast.walk(st.value))):
                 consts[nm] = st.value
     new = {k: v for k, v in consts.items()
            if k not in ref['<module>'] and count[k] == 1}
